@@ -5,6 +5,7 @@ import (
 	"strings"
 	"testing"
 
+	"github.com/hashicorp/hcl-lang/lang"
 	"github.com/hashicorp/hcl/v2"
 	"github.com/hashicorp/hcl/v2/hclsyntax"
 
@@ -303,7 +304,13 @@ func checkC18(c C18Case) Result {
 		if size > 0 {
 			shifted = true
 		}
-		if n1 != n2 {
+		if n1 != n2 && cl.Kind == "hover" && selfAddressFlip(res1.Val, res2.Val) {
+			// Target.Address decides between `self.x` and the absolute address by asking whether the
+			// cursor lies in the range the target is visible from - without looking at the file name:
+			// a declaration at coinciding coordinates in another file gets the wrong form
+			r.Fail("translation:hover:self-address-of-coinciding-block-in-another-file", "inserting %d bytes at offset %d of %s flips the address shown by %s between the self.* and the absolute form (a twin declaration sits at coinciding coordinates in another file)\n original (shifted): %s\n translated:         %s",
+				len(c.Insert), c.At, c.File, cl, around(n1, n2), around(n2, n1))
+		} else if n1 != n2 {
 			r.Fail("translation:"+cl.Kind, "inserting %q at offset %d of %s changes the result of %s beyond shifting positions\n original (shifted): %s\n translated:         %s",
 				c.Insert, c.At, c.File, cl, around(n1, n2), around(n2, n1))
 		}
@@ -382,4 +389,33 @@ func tokensTranslated(orig, translated string, at, nBytes int, shiftPos func(hcl
 		}
 	}
 	return true
+}
+
+// selfAddressFlip reports whether two hover results differ only in the form of the address in
+// their first line: `self.<rest>` on one side, an absolute address ending in .<rest> on the other.
+func selfAddressFlip(a, b interface{}) bool {
+	ha, ok1 := a.(*lang.HoverData)
+	hb, ok2 := b.(*lang.HoverData)
+	if !ok1 || !ok2 || ha == nil || hb == nil {
+		return false
+	}
+	first := func(s string) (string, string) {
+		if i := strings.Index(s, "\n"); i >= 0 {
+			return s[:i], s[i:]
+		}
+		return s, ""
+	}
+	la, ra := first(ha.Content.Value)
+	lb, rb := first(hb.Content.Value)
+	if ra != rb || la == lb {
+		return false
+	}
+	if strings.HasPrefix(lb, "`self") {
+		la, lb = lb, la
+	}
+	if !strings.HasPrefix(la, "`self") || strings.HasPrefix(lb, "`self") {
+		return false
+	}
+	rest := strings.TrimSuffix(strings.TrimPrefix(la, "`self"), "`")
+	return strings.HasSuffix(strings.TrimSuffix(lb, "`"), rest)
 }
